@@ -10,7 +10,7 @@ def gen(rng, n, tier):
 
 register(PropSpec(
     "C02",
-    engines=[EngineSpec("exec", gen, mon_exec.mon_c02, mon_exec.tags_c02, quick_n=250, thorough_n=6000)],
+    engines=[EngineSpec("exec", gen, mon_exec.mon_c02, mon_exec.tags_c02, quick_n=250, thorough_n=6000, mask=mon_exec.mask_unmodelled)],
     rule="exec engine: histories of 4-14 blocks of mostly-valid interchain requests/receipts (valid / duplicate / future / 0 / 2^64-1 "
          "indices, ordered and unordered destinations, good / absent / mismatching proofs, fee-starved senders), transfers and direct "
          "contract calls; non-trivial = at least one IBTP receipt outcome tag; distinct = distinct op list + tag set",
